@@ -249,9 +249,14 @@ class Parser:
         return self.vars[path]
 
 
-def translate(expr, varmap, ty):
+def translate(expr, varmap, ty, value=False):
     p = Parser(tokenize(expr), varmap, ty)
-    e = p.parse()
+    if value:
+        e = p.p_sum()
+        if p.i != len(p.t):
+            raise ParseError("trailing tokens")
+    else:
+        e = p.parse()
     return e, p.used
 
 
@@ -311,6 +316,34 @@ SITES = [
     dict(name="catchup_obsolete", file="lib.rs", fn="reset_node_state_if_update", how="if", ty="N",
          vars=paths(("max_version", "mx"), ("node_state.last_gc_version", "cgc")),
          params=["mx", "cgc"], must={"mx", "cgc"}, fallback="N.ltb mx cgc"),
+    # NodeState::gc_keys_marked_for_deletion: which tombstones are kept, and the new watermark
+    dict(name="gc_keep", file="state.rs", fn="gc_keys_marked_for_deletion", how="if", ty="Z",
+         vars=paths(("now", "now"), ("deleted_start_instant", "t"), ("grace_period", "grace")),
+         params=["now", "t", "grace"], must={"now", "t", "grace"}, fallback="Z.ltb now (Z.add t grace)"),
+    dict(name="gc_watermark", file="state.rs", fn="gc_keys_marked_for_deletion", how="assign:max_deleted_version", ty="N", value=True,
+         vars=paths(("versioned_value.version", "ver"), ("max_deleted_version", "acc"), ("self.last_gc_version", "cgc")),
+         params=["ver", "acc", "cgc"], must=None, fallback="N.max ver acc"),
+    # NodeState::set_versioned_value: the max version it leaves, and which of two entries of a key wins
+    dict(name="svv_max", file="state.rs", fn="set_versioned_value", how="assign:self.max_version", ty="N", value=True,
+         vars=paths(("versioned_value_update.version", "ver"), ("self.max_version", "cmax")),
+         params=["ver", "cmax"], must=None, fallback="N.max ver cmax"),
+    dict(name="svv_older", file="state.rs", fn="set_versioned_value", how="if", ty="N",
+         vars=paths(("occupied_versioned_value.version", "old"), ("versioned_value_update.version", "ver")),
+         params=["old", "ver"], must={"old", "ver"}, fallback="N.leb ver old"),
+    # NodeState::apply_delta: which key-values of a delta are skipped
+    dict(name="apply_known", file="state.rs", fn="apply_delta", how="if", ty="N",
+         vars=paths(("key_value_mutation.version", "ver"), ("current_max_version", "cmax"), ("self.last_gc_version", "cgc")),
+         params=["ver", "cmax", "cgc"], must=dict(include={"ver", "cmax"}), fallback="N.leb ver cmax"),
+    dict(name="apply_collected", file="state.rs", fn="apply_delta", how="if", ty="N",
+         vars=paths(("key_value_mutation.version", "ver"), ("current_max_version", "cmax"), ("self.last_gc_version", "cgc")),
+         params=["ver", "cmax", "cgc"], must=dict(include={"ver", "cgc"}), fallback="N.leb ver cgc"),
+    # Chitchat::reset_node_state_if_update: the frontier it leaves
+    dict(name="catchup_new_gc", file="lib.rs", fn="reset_node_state_if_update", how="let:new_last_gc_version", ty="N", value=True,
+         vars=paths(("last_gc_version", "gc"), ("node_state.last_gc_version", "cgc"), ("max_version", "mx"), ("node_state.max_version", "cmax")),
+         params=["gc", "cgc", "mx", "cmax"], must=None, fallback="N.max gc cgc"),
+    dict(name="catchup_new_max", file="lib.rs", fn="reset_node_state_if_update", how="let:new_max_version", ty="N", value=True,
+         vars=paths(("last_gc_version", "gc"), ("node_state.last_gc_version", "cgc"), ("max_version", "mx"), ("node_state.max_version", "cmax")),
+         params=["gc", "cgc", "mx", "cmax"], must=None, fallback="N.max mx cmax"),
 ]
 
 
@@ -319,6 +352,15 @@ def candidates(body, site):
     if how.startswith("let:"):
         nm = how[4:]
         return [m.group(1) for m in re.finditer(r"\blet\s+" + re.escape(nm) + r"\s*(?::\s*bool\s*)?=\s*(.*?);", body, flags=re.S)]
+    if how.startswith("assign:"):
+        lhs = how[7:]
+        res = []
+        for m in re.finditer(r"(?<![\w.])" + re.escape(lhs) + r"\s*=(?!=)\s*(.*?);", body, flags=re.S):
+            before = body[:m.start()].rstrip()
+            if before.endswith("let") or before.endswith("mut"):
+                continue  # the declaration, not the update
+            res.append(m.group(1))
+        return res
     if how.startswith("closure:"):
         nm = how[8:]
         res = []
@@ -370,7 +412,7 @@ def find_site(sources, site):
             for cand in candidates(body, site):
                 cand = " ".join(cand.split())
                 try:
-                    e, used = translate(cand, site["vars"], site["ty"])
+                    e, used = translate(cand, site["vars"], site["ty"], value=site.get("value", False))
                 except ParseError:
                     continue
                 if not must_ok(site["must"], used):
@@ -410,11 +452,13 @@ def main():
         if hit:
             fn, rust, coq = hit
             lines.append(f"(* {fn}, fn {site['fn']}: {rust} *)")
-            lines.append(f"Definition rs_{site['name']} ({params} : {ty}) : bool := {coq}.")
+            rty = ty if site.get("value") else "bool"
+            lines.append(f"Definition rs_{site['name']} ({params} : {ty}) : {rty} := {coq}.")
             print(f"GUARD {site['name']} {fn} :: {rust}")
         else:
             lines.append(f"(* fallback: the guard of fn {site['fn']} was not located in the sources; this is the model's own guard *)")
-            lines.append(f"Definition rs_{site['name']} ({params} : {ty}) : bool := {site['fallback']}.")
+            rty = ty if site.get("value") else "bool"
+            lines.append(f"Definition rs_{site['name']} ({params} : {ty}) : {rty} := {site['fallback']}.")
             print(f"GUARD-FALLBACK {site['name']}")
         lines.append("")
     new = "\n".join(lines)
